@@ -476,7 +476,7 @@ def _jobs_for(prop, tier):
     if prop == 'C11':
         return jobs_simplify(tier) + jobs_validity_params(tier)
     if prop == 'C07':
-        return [j for j in jobs_option_below(tier) if j[1][3] == 'combinations'] + jobs_combinations(tier) + jobs_axis0(tier, 'combinations')
+        return [j for j in jobs_option_below(tier) if j[1][3] == 'combinations'] + jobs_combinations(tier) + jobs_axis0(tier, 'combinations') + jobs_record_below(tier, ('combinations',))
     if prop == 'C03':
         return jobs_c03(tier) + jobs_option_reduce(tier) + jobs_axis(tier, ('reduce',)) + jobs_reduce_nonlocal(tier) + jobs_unmasked_passthrough(('reduce_next',))
     return {'C02': (lambda t: jobs_c02(t) + jobs_numpy_toregular(t)), 'C03': jobs_c03, 'C04': (lambda t: jobs_c04(t) + jobs_numpy_toregular(t)), 'C06': (lambda t: jobs_c06(t) + jobs_axis(t, ('sort', 'argsort')) + jobs_numpy_sort(t) + jobs_sort_nonlocal(t) + jobs_option_sort(t) + jobs_option_sort_above(t) + jobs_option_argsort(t) + jobs_string_argsort(t) + jobs_unmasked_passthrough(('sort_next', 'argsort_next'))), 'C08': (lambda t: jobs_c08(t) + jobs_numpy(t) + jobs_numpy_types(t) + jobs_union(t) + jobs_reverse_merge(t) + jobs_record_merge(t) + jobs_list_merge(t) + [j for j in jobs_record_named(t) if j[0] is h_record_mergemany_named] + jobs_merge_union(t) + jobs_union_ops(t)), 'C17': (lambda t: jobs_c17(t) + jobs_record_keys(t)), 'C12': (lambda t: jobs_numpy(t) + jobs_numpy_astype(t) + [(h_index_alloc, (), 900)] + [(h_axis0, (L_, 'combinations', n_, True), 900) for L_, n_ in ((1, 2), (2, 3), (1, 3), (0, 2))] + [j for j in jobs_numpy_getitem(t) if j[1][3] == 'array']), 'C10': (lambda t: jobs_c10(t) + [j for j in jobs_record_named(t) if j[0] is h_record_field_key] + jobs_project(t) + [j for j in jobs_option_below(t) if j[1][3] in ('getitem_field', 'getitem_fields')] + jobs_record_setitem(t)), 'C05': jobs_c05, 'C09': jobs_c09}.get(prop, lambda t: [])(tier)
@@ -5113,12 +5113,24 @@ def h_record_below(nfields, length, meth):
     F = nc.derived_stub(frag, meth)
     this, vals, lens = build_record(nc, nfields, length)
     nc.m.record('ret', {})
-    args = [BV(x) for x in extra] + [BV(1), BV(0)]
-    out = nc.m.call('_ZNK7awkward11RecordArray%s' % mm, [Ptr('ret', 0), this] + args)
+    if meth == 'combinations':
+        rl = nc.m.record('recordlookup', {0: (NULL, 8), 8: (NULL, 8)}, const=True)
+        pc__ = {}
+        nc.empty_map(pc__, 0, 'noparams')
+        pm = nc.m.record('noparams', pc__, const=True)
+        args = [BV(2), z3.BitVecVal(0, 1), rl, pm, BV(1), BV(0)]
+        cands = [f for mod_ in nc.m.eng.mods for f in mod_.func_src if f.startswith('_ZNK7awkward11RecordArray12combinationsElb')]
+        out = nc.m.call(cands[0], [Ptr('ret', 0), this] + args)
+    else:
+        args = [BV(x) for x in extra] + [BV(1), BV(0)]
+        out = nc.m.call('_ZNK7awkward11RecordArray%s' % mm, [Ptr('ret', 0), this] + args)
     obls = [('%s does not raise' % meth, out.raised)]
     calls = [(pc, a) for pc, nm, a in out.trace if nm == meth]
     obls.append(('every field content is asked', z3.BoolVal(len(calls) != nfields)))
     for pc, a in calls:
+        if meth == 'combinations':
+            obls.append(('a field content receives the same request (n, replacement, axis, depth)', z3.And(pc, z3.Or(a[0] != 2, a[1] != 0, a[4] != 1, a[5] != 0))))
+            continue
         want_args = list(extra) + [1, 0]
         obls.append(('a field content receives the same request (same axis, same depth)', z3.And(pc, z3.Or([x != w for x, w in zip(a, want_args)]))))
     BASE = 1 << 32
@@ -5145,8 +5157,10 @@ def h_record_below(nfields, length, meth):
             prog += 'i64 %s listoffset64 %s ' % (fullnative.ints(flat), fullnative.ints(offs_))
             fields.append(rows)
         prog += 'tuple %d %d ' % (nfields, length)
-        ref = {'num': lambda l: len(l), 'localindex': lambda l: list(range(len(l))), 'rpad': lambda l: py_pad(l, 3, False, None), 'rpad_and_clip': lambda l: py_pad(l, 3, True, None)}[meth]
-        op = {'num': 'num 1', 'localindex': 'localindex 1', 'rpad': 'rpad 3 1', 'rpad_and_clip': 'rpadclip 3 1'}[meth]
+        import itertools as _it
+        ref = {'num': lambda l: len(l), 'localindex': lambda l: list(range(len(l))), 'rpad': lambda l: py_pad(l, 3, False, None), 'rpad_and_clip': lambda l: py_pad(l, 3, True, None),
+               'combinations': lambda l: [{'0': a_, '1': b_} for a_, b_ in _it.combinations(l, 2)]}[meth]
+        op = {'num': 'num 1', 'localindex': 'localindex 1', 'rpad': 'rpad 3 1', 'rpad_and_clip': 'rpadclip 3 1', 'combinations': 'combinations 2 0 1'}[meth]
         exp = [{str(k): ref(fields[k][i]) for k in range(nfields)} for i in range(length)]
         return akrun_check(prog + op, exp, '%d records over fields of %s lists: %s(axis=1)' % (length, ls, meth))
     return mdischarge(nc.m, 'RecordArray::%s below the node, %d fields, %d records' % (meth, nfields, length), obls, [('a field content longer than the record array', lens[0] > length)] if nfields else [], replay=replay,
